@@ -38,6 +38,10 @@ def body(tier: str, seed: int) -> int:
     cs = ioc.contracts('quick' if tier.startswith('replay') else tier)
     stl_io.run_io_contracts(rep, cs, seed, PROP, DESCR)
     rep.extra['macros_not_under_contract'] = ioc.NOT_COVERED
+    for st in stl_io.stale_contracts(cs):
+        rep.undecide(f'obligation=bounded:{st.split(":")[0]}.contract reason=stale-contract ({st})')
+    for nm in stl_io.uncovered_macros(cs, ioc.ANCHORED, ioc.NOT_COVERED):
+        rep.undecide(f'obligation=bounded:{nm}.contract reason=no-contract (a def of the anchored library files has neither a contract nor a stated reason)')
     rep.assume('[B] bounded: values exhaustive only for n <= 2 hexes / 8 bits; vector lengths, buffer sizes, input strings and widths are the listed ones')
     rep.assume('frame: every word other than the destinations, the machine\'s IO bits, the private data cells of the macro instance under test and (buffer helpers) the documented pointer globals of stl.ptr_init is bit-identical before and after')
     rep.trust('spec/machine.py as the engine (C01 relates the real engines to it); the real assembler and reader produce the image (C02, C06, C15)')
